@@ -1,4 +1,6 @@
 import YaqsModel.Lemmas.Verdict
+import YaqsModel.Lemmas.MpoUpdate
+import YaqsModel.Lemmas.CRat
 import Mathlib.LinearAlgebra.Matrix.Trace
 import Mathlib.Data.Complex.Basic
 import Mathlib.Algebra.Star.Basic
@@ -18,6 +20,12 @@ Property theorems only (helper lemmas live in `Lemmas/Verdict.lean`).
   (`apply_gate`, `decompose_theta`, the long-range gate-MPO contraction) are **modelled, not verified**:
   they are only *tied* numerically against qiskit's `Operator` by the harness (`numeric` cases), and the
   agreement of the model's event list with the real `iterate` is a *trace tie* (`iter` cases).
+* Part C (extension, namespace `Yaqs.MpoUpdate`, after Part B) puts those tensor numerics inside the model
+  (`Model/MpoUpdate.lean`: the einsum strings, transposes and reshapes of `apply_gate`, `apply_temporal_zone`, `update_mpo`,
+  `decompose_theta`, `apply_long_range_layer`, `MPS.scalar_product`, `MPO.check_if_identity`, value-tied by the `t-*` cases)
+  and proves that each update is the matrix product it is supposed to be.  The checker builds `U₁ · X · U₂ᴴ`
+  (gates of the first circuit multiply from the left, adjoints of the gates of the second circuit from the right).
+  What stays a hypothesis is the LAPACK SVD inside `decompose_theta` (`U diag(s) V = θ-matrix`, isometries — as in C09).
 -/
 namespace Yaqs.Verdict
 
@@ -233,3 +241,302 @@ example (sem1 sem2 : Instr → ℂ) (evs : List Ev)
   iterate_result sem1 sem2 (fun _ _ _ => Commute.all _ _) (fun _ _ _ => Commute.all _ _) 3 _ _ 3 evs h 1
 
 end Yaqs.Verdict
+
+/-! ## Part C — the tensor updates of the MPO build as index algebra (`Model/MpoUpdate.lean`) -/
+namespace Yaqs.MpoUpdate
+open Matrix Yaqs.MpoConv Yaqs.Verdict
+open scoped Kronecker
+
+/-- a two-site gate with Gaussian-rational entries used by the non-vacuity examples (not symmetric, not real) -/
+private def exG : Gate CRat :=
+  ⟨false, 2, [1, 0], fun _ _ => 0, fun i j k l => ⟨(i + 2 * j + 3 * k : Nat), (l : Nat)⟩⟩
+/-- a one-site gate on the second site -/
+private def exH : Gate CRat := ⟨false, 1, [1], fun i j => ⟨(i : Nat), (2 * j + 1 : Nat)⟩, fun _ _ _ _ => 0⟩
+private def exA : Site CRat := ⟨2, 1, 2, fun a b _ r => ⟨(a + r : Nat), (b : Nat)⟩⟩
+private def exB : Site CRat := ⟨2, 2, 1, fun a b l _ => ⟨(a * b : Nat), (l : Nat)⟩⟩
+
+/-- **C04.11 (`apply_gate` from the first circuit = on top)** whenever `apply_gate(gate, theta, site0, site1)` returns (no
+    assertion fires), the new block is `G · Θ` as operators on the two sites — for every pair of bond indices (the bond
+    legs are spectators), every physical dimension and every gate shape: `G` is the identity for `name == "I"`, `M ⊗ 1`
+    for a one-site gate on `site0`, `1 ⊗ M` on `site1`, and the tensor read as the matrix `⟨i j| G |k l⟩` for a two-site gate
+    (covers the einsums `"ij, jklmno->iklmno"`, `"ij, kjlmno->kilmno"`, `"ijkl, klmnop->ijmnop"`). -/
+theorem apply_gate_top {K : Type} [CommSemiring K] (cj : K → K) (d : Nat) (g : Gate K) (θ θ' : T6 K) (s0 s1 : Nat)
+    (h : applyGate cj d g θ s0 s1 false = some θ') (l r : Nat) :
+    opMat d θ' l r = gateOp d g s0 * opMat d θ l r :=
+  applyGate_top cj d g θ θ' s0 s1 h l r
+
+example (θ : T6 CRat) (l r : Nat) :
+    opMat 2 (contractTwo 2 exG.ten θ) l r = gateMat2 2 exG.ten * opMat 2 θ l r := by
+  have := apply_gate_top CRat.conj 2 exG θ _ 0 1 rfl l r
+  simpa [gateOp, gateOpC, exG, gateCore] using this
+
+/-- **C04.12 (`apply_gate` from the second circuit = conjugated, from below)** with `conjugate=True` the new block is
+    `Θ · Gᴴ`: the code conjugates the entries (`np.conj`) *and* contracts the gate's second index pair with the block's lower
+    legs (the two transposes `(3,4,2,0,1,5)` around the same einsum), which together is the adjoint — conjugate transpose,
+    not just one of the two.  Same four gate shapes, every bond index pair. -/
+theorem apply_gate_bottom {K : Type} [CommSemiring K] [StarRing K] (d : Nat) (g : Gate K) (θ θ' : T6 K) (s0 s1 : Nat)
+    (h : applyGate star d g θ s0 s1 true = some θ') (l r : Nat) :
+    opMat d θ' l r = opMat d θ l r * (gateOp d g s0)ᴴ :=
+  applyGate_bottom d g θ θ' s0 s1 h l r
+
+example (θ : T6 CRat) (l r : Nat) :
+    ∃ θ', applyGate star 2 exH θ 0 1 true = some θ' ∧
+      opMat 2 θ' l r = opMat 2 θ l r * ((1 : Matrix (Fin 2) (Fin 2) CRat) ⊗ₖ gateMat1 2 exH.mat)ᴴ := by
+  refine ⟨_, rfl, ?_⟩
+  have := apply_gate_bottom 2 exH θ _ 0 1 rfl l r
+  simpa [gateOp, gateOpC, exH] using this
+
+/-- **C04.13 (`apply_gate` raises exactly when an assertion fails)** and a gate with one or two sites inside `{site0, site1}`
+    — what C04.8c `iterate_zone_sites` proves of every gate a temporal zone hands over — never raises. -/
+theorem apply_gate_raises_iff {K : Type} [CommSemiring K] (cj : K → K) (d : Nat) (g : Gate K) (θ : T6 K) (s0 s1 : Nat)
+    (conj : Bool) :
+    (applyGate cj d g θ s0 s1 conj = none ↔ gateOk g s0 s1 = false) ∧
+    (g.sites.length = g.interaction → (g.interaction = 1 ∨ g.interaction = 2) → (∀ q ∈ g.sites, q = s0 ∨ q = s1) →
+      applyGate cj d g θ s0 s1 conj ≠ none) := by
+  refine ⟨applyGate_none_iff cj d g θ s0 s1 conj, fun h1 h2 h3 hn => ?_⟩
+  have := (applyGate_none_iff cj d g θ s0 s1 conj).mp hn
+  rw [gateOk_of_sites g s0 s1 h1 h2 h3] at this
+  exact Bool.noConfusion this
+
+example (θ : T6 CRat) : applyGate CRat.conj 2 exG θ 0 1 true ≠ none ∧ applyGate CRat.conj 2 exG θ 1 2 true = none :=
+  ⟨(apply_gate_raises_iff CRat.conj 2 exG θ 0 1 true).2 rfl (Or.inr rfl) (by decide), rfl⟩
+
+/-- **C04.14 (`temporal_zone_product`, from above)** applying the gates of one temporal zone in the order
+    `apply_temporal_zone` uses equals multiplying the block by their ordered product (last gate leftmost) — the
+    `U semL gs * X` of `applyEv`/`iterate_result`, now proved of the einsums for every zone length. -/
+theorem temporal_zone_product_top {K : Type} [CommSemiring K] (cj : K → K) (d n : Nat) (gs : List (Gate K)) (θ θ' : T6 K)
+    (h : zoneApply cj d n false gs θ = some θ') (l r : Nat) :
+    opMat d θ' l r = ((gs.map fun g => gateOp d g n).reverse).prod * opMat d θ l r :=
+  zoneApply_top cj d n gs θ θ' h l r
+
+example (θ : T6 CRat) (l r : Nat) : ∃ θ', zoneApply CRat.conj 2 0 false [exH, exG] θ = some θ' ∧
+    opMat 2 θ' l r = (gateOp 2 exG 0 * gateOp 2 exH 0) * opMat 2 θ l r := by
+  refine ⟨_, rfl, ?_⟩
+  have := temporal_zone_product_top CRat.conj 2 0 [exH, exG] θ _ rfl l r
+  simpa using this
+
+/-- **C04.15 (`temporal_zone_product`, from below)** with `conjugate=True` the block is multiplied from the right by the
+    adjoints in the order the gates are applied: `Θ · G₁ᴴ · G₂ᴴ ⋯ = Θ · (G_k ⋯ G₁)ᴴ` — the `X * (gs.map semR).prod` of `applyEv`. -/
+theorem temporal_zone_product_bottom {K : Type} [CommSemiring K] [StarRing K] (d n : Nat) (gs : List (Gate K)) (θ θ' : T6 K)
+    (h : zoneApply star d n true gs θ = some θ') (l r : Nat) :
+    opMat d θ' l r = opMat d θ l r * (gs.map fun g => (gateOp d g n)ᴴ).prod ∧
+    (gs.map fun g => (gateOp d g n)ᴴ).prod = (((gs.map fun g => gateOp d g n).reverse).prod)ᴴ := by
+  refine ⟨zoneApply_bottom d n gs θ θ' h l r, ?_⟩
+  clear h
+  induction gs with
+  | nil => simp
+  | cons g gs ih =>
+    simp only [List.map_cons, List.prod_cons, List.reverse_cons, List.prod_append, List.prod_nil, mul_one,
+      conjTranspose_mul]
+    rw [← ih]
+
+example (θ : T6 CRat) (l r : Nat) : ∃ θ', zoneApply star 2 0 true [exH, exG] θ = some θ' ∧
+    opMat 2 θ' l r = opMat 2 θ l r * ((gateOp 2 exH 0)ᴴ * (gateOp 2 exG 0)ᴴ) := by
+  refine ⟨_, rfl, ?_⟩
+  have := (temporal_zone_product_bottom 2 0 [exH, exG] θ _ rfl l r).1
+  simpa using this
+
+/-- **C04.16 (`update_mpo` before the split)** merging the two tensors (`"abcd, efdg->aecbfg"`), applying the zone of
+    circuit 1 and then the conjugated zone of circuit 2 gives `U₁ · Θ · U₂ᴴ` on the two sites, and this is literally what the
+    event semantics of C04.10 `iterate_result` (`runEvs`/`applyEv`) assigns to the two zone events of that update — so the
+    hypothesis "every primitive update is exact" of `iterate_result` is discharged for the zone updates up to the SVD split. -/
+theorem update_theta_is_zone_events {K : Type} [CommSemiring K] [StarRing K] (d n : Nat) (A B : Site K)
+    (gateOf : Instr → Gate K) (is1 is2 : List Instr) (θ' : T6 K)
+    (h : updateTheta star d n A B (is1.map gateOf) (is2.map gateOf) = some θ') (l r : Nat) :
+    opMat d θ' l r = runEvs (fun i => gateOp d (gateOf i) n) (fun i => (gateOp d (gateOf i) n)ᴴ)
+      (opMat d (thetaOf A B) l r) [.zone 1 n is1, .zone 2 n is2] ∧
+    opMat d θ' l r = U (fun i => gateOp d (gateOf i) n) is1 * opMat d (thetaOf A B) l r
+      * star (U (fun i => gateOp d (gateOf i) n) is2) := by
+  have h1 := updateTheta_runEvs d n A B gateOf is1 is2 θ' h l r
+  refine ⟨h1, ?_⟩
+  rw [h1, runEvs_eq, star_U]
+  simp [consumed, Ev.consumed, star_eq_conjTranspose]
+
+example : ∃ θ', updateTheta star 2 0 exA exB ([(⟨0, [1]⟩ : Instr)].map fun _ => exH)
+    ([(⟨0, [1, 0]⟩ : Instr)].map fun _ => exG) = some θ' :=
+  ⟨_, rfl⟩
+
+/-- **C04.17 (`split_then_merge`)** `decompose_theta` followed by re-contraction is the identity up to the discarded
+    weight: from the SVD spec of the flattened block (`θ-matrix = U diag(s) V`, `UᴴU = 1`, `VVᴴ = 1`, `kf` singular values)
+    the block of the two returned tensors (`u[:, :keep]` reshaped; `diag(s[:keep]) · vh[:keep]` reshaped and transposed)
+    differs from `θ` by exactly `Σ_{p ≥ keep} |s_p|²` in squared Frobenius norm — C09's `c09_split_error` carried through the
+    transpose `(0,3,2,1,4,5)` and the reshapes, for every bond dimension and every `keep` (in particular
+    `keep = len(s[s > threshold])`). -/
+theorem split_then_merge {K : Type} [CommRing K] [StarRing K] (d Dl Dr kf : Nat) (thr : Rat) (θ : T6 K) (dec : Svd K)
+    (hkeep : Rank.keepTheta dec.s thr ≤ kf)
+    (hspec : toMat (d * d * Dl) (d * d * Dr) (thetaMatrix d Dl Dr θ)
+      = toMat (d * d * Dl) kf dec.U * diagonal (fun p : Fin kf => dec.sv p) * toMat kf (d * d * Dr) dec.Vh)
+    (hU : (toMat (d * d * Dl) kf dec.U)ᴴ * toMat (d * d * Dl) kf dec.U = 1)
+    (hV : toMat kf (d * d * Dr) dec.Vh * (toMat kf (d * d * Dr) dec.Vh)ᴴ = 1) :
+    Split.frobSq (toMat (d * d * Dl) (d * d * Dr) (thetaMatrix d Dl Dr θ)
+        - toMat (d * d * Dl) (d * d * Dr)
+            (thetaMatrix d Dl Dr (thetaOf (decomposeTheta d Dl Dr dec thr).1 (decomposeTheta d Dl Dr dec thr).2)))
+      = ∑ p : Fin kf, if (p : Nat) < Rank.keepTheta dec.s thr then 0 else star (dec.sv p) * dec.sv p :=
+  split_merge_error d Dl Dr kf _ hkeep θ dec hspec hU hV
+
+/-- **C04.17b (exact split)** if the kept part reconstructs the flattened block, merging the two returned tensors gives
+    back every entry of the block (pure index arithmetic of the reshapes). -/
+theorem split_then_merge_exact {K : Type} [CommSemiring K] (d Dl Dr : Nat) (thr : Rat) (θ : T6 K) (dec : Svd K)
+    (hspec : ∀ i, i < d * d * Dl → ∀ j, j < d * d * Dr →
+      thetaMatrix d Dl Dr θ i j = truncProd (Rank.keepTheta dec.s thr) dec i j)
+    (a e l b f g : Nat) (ha : a < d) (he : e < d) (hl : l < Dl) (hb : b < d) (hf : f < d) (hg : g < Dr) :
+    thetaOf (decomposeTheta d Dl Dr dec thr).1 (decomposeTheta d Dl Dr dec thr).2 a e l b f g = θ a e l b f g :=
+  split_merge_exact d Dl Dr _ θ dec.U dec.Vh dec.sv
+    (fun i hi j hj => by rw [hspec i hi j hj, truncProd, sumTo_eq_sum]) a e l b f g ha he hl hb hf hg
+
+-- non-vacuity over ℚ(i): the 4 × 4 block `diag(3, 2, 1, 0)` (bond dimensions 1), `U = V = 1`, threshold 3/2 keeps two values:
+-- every hypothesis of the error statement is met; the discarded weight is 1² + 0²
+private def exDec : Svd CRat :=
+  ⟨fun i j => if i = j then 1 else 0, [3, 2, 1, 0], fun p => CRat.ofRat (3 - p), fun i j => if i = j then 1 else 0⟩
+private def exθ : T6 CRat := fun a e _ b f _ => if a * 2 + b = e * 2 + f then CRat.ofRat (3 - (a * 2 + b : Nat)) else 0
+example : Rank.keepTheta exDec.s (3 / 2) = 2 ∧ (decomposeTheta 2 1 1 exDec (3 / 2)).1.dr = 2 := by decide +kernel
+example : Split.frobSq (toMat 4 4 (thetaMatrix 2 1 1 exθ)
+        - toMat 4 4 (thetaMatrix 2 1 1 (thetaOf (decomposeTheta 2 1 1 exDec (3 / 2)).1 (decomposeTheta 2 1 1 exDec (3 / 2)).2)))
+      = ∑ p : Fin 4, if (p : Nat) < Rank.keepTheta exDec.s (3 / 2) then 0 else star (exDec.sv p) * exDec.sv p :=
+  split_then_merge 2 1 1 4 (3 / 2) exθ exDec (by decide +kernel) (by decide +kernel) (by decide +kernel) (by decide +kernel)
+-- … and of the exact statement with the threshold below every non-zero value of `diag(3, 2, 1, 1)`
+private def exDec1 : Svd CRat :=
+  ⟨fun i j => if i = j then 1 else 0, [3, 2, 1, 1], fun p => if p < 3 then CRat.ofRat (3 - p) else 1, fun i j => if i = j then 1 else 0⟩
+private def exθ1 : T6 CRat := fun a e _ b f _ =>
+  if a * 2 + b = e * 2 + f then (if a * 2 + b < 3 then CRat.ofRat (3 - (a * 2 + b : Nat)) else 1) else 0
+example : thetaOf (decomposeTheta 2 1 1 exDec1 (1 / 2)).1 (decomposeTheta 2 1 1 exDec1 (1 / 2)).2 1 1 0 1 1 0 = exθ1 1 1 0 1 1 0 :=
+  split_then_merge_exact 2 1 1 (1 / 2) exθ1 exDec1 (by decide +kernel) 1 1 0 1 1 0 (by decide) (by decide) (by decide)
+    (by decide) (by decide) (by decide)
+
+/-- **C04.18 (`update_mpo` inside the chain, nothing discarded)** for every chain length, position of the pair and bond
+    dimensions: if the kept part of the SVD reconstructs the flattened block, then every entry of `to_matrix()` of the chain
+    after `update_mpo` is the entry of `(1 ⊗ U₁ ⊗ 1) · O · (1 ⊗ U₂ᴴ ⊗ 1)` — `U₁` the ordered product of the zone of circuit 1,
+    `U₂ᴴ` the product of the adjoints of the zone of circuit 2 — written out as the sum over the two local row indices `x`
+    and column indices `y`.  Together with C04.8 (`iterate_consumes_all`) and C04.10 (`iterate_result`) this is why the
+    final MPO is `U₁ U₂ᴴ` whenever no truncation occurs; with truncation C04.17 bounds each step by its discarded weight. -/
+theorem update_mpo_chain {K : Type} [CommSemiring K] [StarRing K] (d n : Nat) (A B : Site K) (gs1 gs2 : List (Gate K))
+    (θ' : T6 K) (dec : Svd K) (thr : Rat)
+    (hθ : updateTheta star d n A B gs1 gs2 = some θ')
+    (hspec : ∀ i, i < d * d * A.dl → ∀ j, j < d * d * B.dr →
+      thetaMatrix d A.dl B.dr θ' i j = truncProd (Rank.keepTheta dec.s thr) dec i j)
+    (pre post : List (Site K)) (sp sp' sq sq' : List Nat) (hsp : sp.length = pre.length) (hsp' : sp'.length = pre.length)
+    (i j i' j' : Fin d) (m : Nat) (hm : lastDr m pre = A.dl) (l : Nat) (hl : l < m) :
+    vals (pre ++ (decomposeTheta d A.dl B.dr dec thr).1 :: (decomposeTheta d A.dl B.dr dec thr).2 :: post)
+        (sp ++ (i : Nat) :: (j : Nat) :: sq) (sp' ++ (i' : Nat) :: (j' : Nat) :: sq') l
+      = ∑ x : Fin d × Fin d, ∑ y : Fin d × Fin d,
+          (((gs1.map fun g => gateOp d g n).reverse).prod (i, j) x * (gs2.map fun g => (gateOp d g n)ᴴ).prod y (i', j')) *
+            vals (pre ++ A :: B :: post) (sp ++ (x.1 : Nat) :: (x.2 : Nat) :: sq)
+              (sp' ++ (y.1 : Nat) :: (y.2 : Nat) :: sq') l :=
+  updateMpo_chain d n A B gs1 gs2 θ' dec thr hθ
+    (fun i hi j hj => by rw [hspec i hi j hj, truncProd, sumTo_eq_sum]) pre post sp sp' sq sq' hsp hsp' i j i' j' m hm l hl
+
+-- non-vacuity: the pair `(exA, exB)` (bond 2 between them) with one gate from each circuit; the "SVD" `1 · 1 · M` keeps all four
+-- values, so the hypotheses are met and the new chain is `G_H · O · G_Gᴴ`
+private def exM : Nat → Nat → CRat := thetaMatrix 2 1 1 (contractTwoSwap exG (contractOne1 2 exH.mat (thetaOf exA exB)))
+  where contractTwoSwap (g : Gate CRat) (θ : T6 CRat) : T6 CRat :=
+    swapLegs (contractTwo 2 (fun i j k l => CRat.conj (g.ten i j k l)) (swapLegs θ))
+private def exDecM : Svd CRat := ⟨fun i j => if i = j then 1 else 0, [1, 1, 1, 1], fun _ => 1, exM⟩
+example (i j i' j' : Fin 2) :
+    vals ([] ++ (decomposeTheta 2 exA.dl exB.dr exDecM (1 / 2)).1 :: (decomposeTheta 2 exA.dl exB.dr exDecM (1 / 2)).2 :: [])
+        ([] ++ (i : Nat) :: (j : Nat) :: []) ([] ++ (i' : Nat) :: (j' : Nat) :: []) 0
+      = ∑ x : Fin 2 × Fin 2, ∑ y : Fin 2 × Fin 2,
+          ((([exH].map fun g => gateOp 2 g 0).reverse).prod (i, j) x * ([exG].map fun g => (gateOp 2 g 0)ᴴ).prod y (i', j')) *
+            vals ([] ++ exA :: exB :: []) ([] ++ (x.1 : Nat) :: (x.2 : Nat) :: [])
+              ([] ++ (y.1 : Nat) :: (y.2 : Nat) :: []) 0 :=
+  update_mpo_chain 2 0 exA exB [exH] [exG] _ exDecM (1 / 2) rfl (by decide +kernel) [] [] [] [] [] [] rfl rfl i j i' j' 1 rfl 0
+    (by decide)
+
+/-- **C04.18b** the general principle behind it: the path values of a chain depend on two neighbouring tensors only through
+    their merged block, so a pair carrying `L · Θ · R` on the two sites gives `(1 ⊗ L ⊗ 1) · O · (1 ⊗ R ⊗ 1)` on the chain. -/
+theorem two_site_update_in_chain {K : Type} [CommSemiring K] (d : Nat) (a b a' b' : Site K) (post : List (Site K))
+    (hdr : b'.dr = b.dr) (L R : Matrix (Fin d × Fin d) (Fin d × Fin d) K)
+    (hop : ∀ l, l < a.dl → ∀ w, w < b.dr → opMat d (thetaOf a' b') l w = L * opMat d (thetaOf a b) l w * R)
+    (pre : List (Site K)) (sp sp' sq sq' : List Nat) (hsp : sp.length = pre.length) (hsp' : sp'.length = pre.length)
+    (i j i' j' : Fin d) (n : Nat) (hn : lastDr n pre = a.dl) (l : Nat) (hl : l < n) :
+    vals (pre ++ a' :: b' :: post) (sp ++ (i : Nat) :: (j : Nat) :: sq) (sp' ++ (i' : Nat) :: (j' : Nat) :: sq') l
+      = ∑ x : Fin d × Fin d, ∑ y : Fin d × Fin d, (L (i, j) x * R y (i', j')) *
+          vals (pre ++ a :: b :: post) (sp ++ (x.1 : Nat) :: (x.2 : Nat) :: sq)
+            (sp' ++ (y.1 : Nat) :: (y.2 : Nat) :: sq') l :=
+  vals_two_site_update d a b a' b' post hdr L R hop pre sp sp' sq sq' hsp hsp' i j i' j' n hn l hl
+
+example (i j i' j' : Fin 2) :
+    vals ([] ++ exA :: exB :: []) ([] ++ (i : Nat) :: (j : Nat) :: []) ([] ++ (i' : Nat) :: (j' : Nat) :: []) 0
+      = ∑ x : Fin 2 × Fin 2, ∑ y : Fin 2 × Fin 2, ((1 : Matrix _ _ CRat) (i, j) x * (1 : Matrix _ _ CRat) y (i', j')) *
+          vals ([] ++ exA :: exB :: []) ([] ++ (x.1 : Nat) :: (x.2 : Nat) :: []) ([] ++ (y.1 : Nat) :: (y.2 : Nat) :: []) 0 :=
+  two_site_update_in_chain 2 exA exB exA exB [] rfl 1 1 (fun _ _ _ _ => by simp) [] [] [] [] [] rfl rfl i j i' j' 1 rfl 0
+    (by decide)
+
+/-- **C04.19 (`check_if_identity_trace`)** for every chain length and all bond dimensions: on a well-formed chain of qubit
+    tensors the contraction loop of `check_if_identity` (`to_mps`, `np.conj` of the first state, `"abc,ade->bdce"`,
+    `"abcd,cdef->abef"`, `squeeze`) returns the complex conjugate of the trace of the matrix `to_matrix()` returns
+    (`2ⁿ × 2ⁿ`) — so its modulus is `|tr(to_matrix())|`. -/
+theorem check_if_identity_trace {K : Type} [CommSemiring K] [StarRing K] (ts : List (Site K)) (hw : wellFormed ts = true)
+    (hd : ∀ t ∈ ts, t.d = 2) :
+    ∃ M, toMatrixCode ts = some M ∧ M.rows = 2 ^ ts.length ∧
+      identityTrace star ts = some (star (∑ i ∈ Finset.range M.rows, M.e i i)) :=
+  identityTrace_matrix ts hw hd
+
+example : wellFormed [exA, exB] = true ∧ ∀ t ∈ [exA, exB], t.d = 2 := by
+  refine ⟨by decide, ?_⟩
+  intro t ht
+  simp only [List.mem_cons, List.not_mem_nil, or_false] at ht
+  rcases ht with rfl | rfl <;> rfl
+
+/-- **C04.20 (`check_if_identity_decision`, link to Part A)** the decision `not |trace| / 2ⁿ < fidelity` taken on the exact
+    Gaussian-rational trace is `verdict t n f` of `Model/Verdict.lean` for the modulus `t = |trace|` — so C04.1–C04.5
+    (`verdict_iff`, `verdict_equal_circuits`, `verdict_below`, …) apply to the scalar C04.19 identifies. -/
+theorem check_if_identity_decision (tr : CRat) (n : Nat) (f t : Rat) (ht : 0 ≤ t) (hsq : t * t = CRat.normSq tr) :
+    identityDecision tr n f = verdict t n f ∧ (identityDecision tr n f = true ↔ f ≤ t / (2 : Rat) ^ n) := by
+  have h := identityDecision_eq_verdict tr n f t ht hsq
+  exact ⟨h, by rw [h, verdict_iff]⟩
+
+example : identityDecision ⟨3, -4⟩ 3 (5 / 8) = true ∧ identityDecision ⟨3, -4⟩ 3 (51 / 80) = false ∧
+    (5 : Rat) * 5 = CRat.normSq ⟨3, -4⟩ := by decide +kernel
+
+/-- **C04.21 (the einsums of `apply_long_range_layer`)** stacking a long-range gate's MPO tensors on the MPO: the
+    non-conjugate pair einsum `"abcd,edfg,chij,fjkl->aebhikgl"` with its reshape is the merged block (`thetaOf`) of the two
+    site-wise products `G₀·W₀`, `G₁·W₁` (gate on top, gate bond most significant); the conjugate pair einsum
+    `"…->ikhbaelg"` is the merged block of the products with the gate tensors contracted from below
+    (`Σ_c W[σ, c] · G[σ', c]`, MPO bond most significant); the hanging tensor's block `"abcd, edfg->aebcfg"` is `thetaOf`
+    of the previous MPO tensor and the stacked one; and at fixed bond indices a site product is the matrix product. -/
+theorem long_range_blocks {K : Type} [CommSemiring K] (G0 G1 W0 W1 : Site K) (hW : W1.dl = W0.dr) (hG : G1.dl = G0.dr) :
+    lrPairTop G0 G1 W0 W1 = thetaOf (mulSite G0 W0) (mulSite G1 W1) ∧
+    lrPairBottom G0 G1 W0 W1 = thetaOf (lrHangBottom G0 W0) (lrHangBottom G1 W1) ∧
+    lrHangTop G0 W0 = mulSite G0 W0 ∧
+    (∀ P H : Site K, lrHangTheta P H = thetaOf P H) ∧
+    (∀ a b lg lw rg rw, lw < W0.dl → rw < W0.dr →
+      (mulSite G0 W0).e a b (lg * W0.dl + lw) (rg * W0.dr + rw) = ∑ c ∈ Finset.range W0.d, G0.e a c lg rg * W0.e c b lw rw) :=
+  ⟨lrPairTop_eq G0 G1 W0 W1 hW, lrPairBottom_eq G0 G1 W0 W1 hG, rfl, fun _ _ => rfl,
+    fun a b lg lw rg rw h1 h2 => mulSite_apply G0 W0 a b lg lw rg rw h1 h2⟩
+
+example : exB.dl = exA.dr ∧ lrPairTop exA exB exA exB = thetaOf (mulSite exA exA) (mulSite exB exB) :=
+  ⟨rfl, (long_range_blocks exA exB exA exB rfl rfl).1⟩
+
+/-- **C04.21b (orientation of the conjugated long-range branch — model what the code does)** with the gate MPO stored as
+    `rotate(conjugate=True)` leaves it, the conjugated branch multiplies the local operator of the MPO from the right by
+    `conj(G)` (entry-wise conjugate: `Σ_c W[σ, c] · conj(G[c, σ'])`), *not* by `Gᴴ`; the two coincide exactly when the gate-MPO
+    tensor is symmetric in its physical legs.  Every two-qubit gate of the library is a symmetric matrix (cx, cz, swap, cp,
+    rxx, ryy, rzz), so for the gate set the checker accepts the branch gives `W · Gᴴ` (second statement; tied densely by the
+    `t-lr-dense` oracle); a non-symmetric two-qubit gate would be applied wrongly from this side. -/
+theorem long_range_bottom_operator {K : Type} [CommSemiring K] [StarRing K] (G W : Site K) (f a lw lg rw rg : Nat)
+    (hlg : lg < G.dl) (hrg : rg < G.dr) :
+    (lrHangBottom (rotateSite star G) W).e f a (lw * G.dl + lg) (rw * G.dr + rg)
+        = ∑ c ∈ Finset.range W.d, W.e f c lw rw * star (G.e c a lg rg) ∧
+    ((∀ c, G.e c a lg rg = G.e a c lg rg) →
+      (lrHangBottom (rotateSite star G) W).e f a (lw * G.dl + lg) (rw * G.dr + rg)
+        = ∑ c ∈ Finset.range W.d, W.e f c lw rw * star (G.e a c lg rg)) := by
+  have h := lrHangBottom_rotate_apply G W f a lw lg rw rg hlg hrg
+  exact ⟨h, fun hs => by rw [h]; exact Finset.sum_congr rfl fun c _ => by rw [hs c]⟩
+
+example : (lrHangBottom (rotateSite star exA) exB).e 1 0 (1 * exA.dl + 0) (0 * exA.dr + 1)
+    = ∑ c ∈ Finset.range exB.d, exB.e 1 c 1 0 * star (exA.e c 0 0 1) :=
+  (long_range_bottom_operator exA exB 1 0 1 0 0 1 (by decide) (by decide)).1
+
+/-- **C04.22 (the driver runs the model)** the array-backed loops the correspondence driver executes
+    (`zoneApplyM`, `updateThetaM`: the block is written out after every gate, as numpy does) compute, on every in-range
+    entry, the functions the theorems above are about, and raise exactly when they do. -/
+theorem materialised_loops_agree {K : Type} [CommSemiring K] (cj : K → K) (d n : Nat) (A B : Site K)
+    (gs1 gs2 : List (Gate K)) :
+    OptEqOn6 d A.dl B.dr (updateThetaM cj d n A B gs1 gs2) (updateTheta cj d n A B gs1 gs2) ∧
+    ∀ (conj : Bool) (gs : List (Gate K)) (a : Array K) (θ : T6 K), EqOn6 d A.dl B.dr (ofTab6 d A.dl d d B.dr a) θ →
+      OptEqOn6 d A.dl B.dr (zoneApplyM cj d A.dl B.dr n conj gs a) (zoneApply cj d n conj gs θ) :=
+  ⟨updateThetaM_eq cj d n A B gs1 gs2, fun conj gs a θ h => zoneApplyM_eq cj d A.dl B.dr n conj gs a θ h⟩
+
+example : (updateThetaM CRat.conj 2 0 exA exB [exH] [exG]).isSome = true := by decide +kernel
+
+end Yaqs.MpoUpdate
